@@ -3,13 +3,14 @@
   Model: JRV.Model.Pool.  Theorems over every reachable state (all interleavings, programs, timings).
 -/
 import JRV.Lemmas.PoolTask2
+import JRV.Lemmas.PoolC11
 import JRV.Generated
 
 set_option linter.unusedSimpArgs false
 set_option linter.unusedVariables false
 
 namespace JRV.Props
-open JRV JRV.Pool
+open JRV JRV.Pool JRV.Pool.C11L
 
 /-- A task that has been accepted and is neither finished nor dropped by `clear()`. -/
 def unfinishedTask (tk : Task) : Bool :=
@@ -136,29 +137,376 @@ theorem C11_idempotent_stop (s : State) (i : Nat) (c : Client) (hc : s.clients[i
 
 example : isCtl (init { max := 2, min := 1, qbound := 0 } 1) 0 = true := rfl
 
-/-! Statements not (yet) proved — kept at full strength. -/
+/-! ### after `stop()`: every worker has terminated, the pool looks like a fresh one (single controlling thread) -/
 
-/-- While a client is inside `stop()` some non-environment action is enabled unless a task body is running
-    (no stuck state), and the measure (remaining steps of live workers + sentinels to place + threads to join)
-    strictly decreases on every non-environment step: `stop()` returns on every fair run in which running tasks finish. -/
-def C11_stop_no_stuck_full_statement : Prop :=
-  ∀ (cfg : Config) (n : Nat) (s : State), cfg.singleCtl = true → Reach (init cfg n) s →
-    (∃ c, s.clients[0]? = some c ∧ (match c.pc with
-        | .stopSet | .stopAcq | .stopPut _ | .stopRel _ | .stopAlive _ | .stopJoin _ | .stopAlive2 _
-        | .clrAcq | .clrGet | .clrDone _ | .clrJoin | .clrRel => True | _ => False)) →
-    (∀ w ∈ s.workers, w.pc ≠ .body) →
-    ∃ a s', (match a.op with | .taskEnd _ | .callStart | .callStop | .callClear | .callJoin | .callJoinT | .callEnqueue
-                             | .callWait _ => False | _ => True) ∧ step? s a = some s'
+/-- The controlling thread (client 0) is not inside the sentinel/join phase of `stop()` (from its `lock.acquire` to the
+    end of the join loop).  Together with `s.stop = true` this says: the pool was never started, or the join loop of
+    the last `stop()` is over (the controller may be in the final `clear()` of `stop()`, may have returned, may be
+    enqueuing, joining or waiting, or may have called `start()` again without having cleared the flag yet). -/
+def notJoining (s : State) : Bool :=
+  match s.clients[0]? with
+  | some c => !joinPhase c.pc
+  | none => true
 
-/-- After `stop()` returned (single controlling thread) every worker is in its terminal state, the counters are zero,
-    `_threads` is empty and the queue accounting is that of a fresh pool (`unfinished = |queue|`, `pending = #tasks`). -/
-def C11_workers_exit_restart_full_statement : Prop :=
-  ∀ (cfg : Config) (n : Nat) (s : State), cfg.singleCtl = true → Reach (init cfg n) s → s.stop = true →
+/-- **`stop()` has returned** (or the pool was never started) **and the controller has not restarted the pool**: the
+    flag is set and the controlling thread is neither inside `stop()` after its `event.set` nor inside `clear()`
+    (`afterSet`: from the `lock.acquire` of `stop()` to the `lock.release` of `clear()`).  It may be idle, enqueuing,
+    joining, waiting, calling `stop()` again (a no-op) or have called `start()` without having cleared the flag yet. -/
+def stopReturned (s : State) : Bool :=
+  s.stop && (match s.clients[0]? with
+    | some c => !afterSet c.pc
+    | none => true)
+
+theorem notJoining_of_stopReturned {s : State} (h : stopReturned s = true) : s.stop = true ∧ notJoining s = true := by
+  unfold stopReturned at h
+  unfold notJoining
+  cases hc : s.clients[0]? with
+  | none => simp [hc] at h ⊢; exact h
+  | some c =>
+    simp [hc] at h ⊢
+    refine ⟨h.1, ?_⟩
+    cases hpc : c.pc <;> simp [hpc, afterSet] at h <;> simp [joinPhase]
+
+/-- **Every worker ever started terminates on its own, and no task starts after `stop()`**: in every reachable state in
+    which the flag is set and the controller is past the join loop of `stop()` — in particular in every state after
+    `stop()` has returned and before the next `start()` clears the flag — every worker is at its terminal program
+    counter, `nb_threads = nb_active_threads = 0`, `_threads` is empty, no worker holds a task or an undelivered queue
+    item, and no worker action whatsoever (in particular no `task.begin`) is enabled. -/
+theorem C11_workers_exit (cfg : Config) (n : Nat) (s : State) (hs : cfg.singleCtl = true) (hr : Reach (init cfg n) s)
+    (hflag : s.stop = true) (hctl : notJoining s = true) :
+    (∀ w ∈ s.workers, w.pc = .dead) ∧ s.nbThreads = 0 ∧ s.nbActive = 0 ∧ s.threads = [] ∧
+    (∀ w ∈ s.workers, wHasTask w = false ∧ wHoldsItem w = false) ∧
+    (∀ (a : Action) (i : Nat), a.who = .worker i → step? s a = none) := by
+  have hC := CtlInv_reach hs hr
+  have hB := BaseInv_reach hr
+  have hq := hC.stop.quiet hflag (by
+    intro c hc
+    simp [notJoining, hc] at hctl
+    exact hctl)
+  have hdead : ∀ w ∈ s.workers, w.pc = .dead := by
+    intro w hw
+    obtain ⟨j, hj⟩ := List.getElem?_of_mem hw
+    exact hq.1 j w hj
+  refine ⟨hdead, ?_, ?_, hq.2, ?_, ?_⟩
+  · rw [hB.count.threads]
+    apply List.countP_eq_zero.mpr
+    intro w hw
+    simp [counted, hdead w hw]
+  · rw [hB.count.active]
+    apply List.countP_eq_zero.mpr
+    intro w hw
+    simp [active, hdead w hw]
+  · intro w hw
+    simp [wHasTask, wHoldsItem, hdead w hw]
+  · intro a i ha
+    cases hst : step? s a with
+    | none => rfl
+    | some s' =>
+      exfalso
+      simp only [step?, ha] at hst
+      cases hw : s.workers[i]? with
+      | none => simp [hw] at hst
+      | some w =>
+        simp only [hw] at hst
+        exact workerStep_not_dead hst (hq.1 i w hw)
+
+/-- The configuration of a pool that has just been constructed, after any number of `enqueue` calls (completed or in
+    progress), `join`s and `result` waits — the state from which `start()` begins: flag set, the three counters and the
+    queue's unfinished count exactly those of a new pool holding the queued tasks (`nb_threads = nb_active = 0`,
+    `nb_pending = unfinished = |queue|`), `_threads` empty, no live worker (a new pool has none at all; after a `stop()`
+    the records of the terminated workers remain, and a terminated worker has no transition and is referred to by no
+    counter, list or queue item), only tasks — no sentinel — in the queue, each in phase `queued`. -/
+structure FreshLike (s : State) : Prop where
+  flag : s.stop = true
+  noLive : ∀ w ∈ s.workers, w.pc = .dead
+  nbThreads : s.nbThreads = 0
+  nbActive : s.nbActive = 0
+  threads : s.threads = []
+  onlyTasks : ∀ it ∈ s.queue, isTask it = true
+  nbPending : s.nbPending = s.queue.length
+  unfinished : s.unfinished = s.queue.length
+  queued : ∀ t, Item.task t ∈ s.queue → ∃ tk, s.tasks[t]? = some tk ∧ tk.phase = .queued ∧ tk.execCount = 0
+
+/-- **A stopped pool can be started again and then behaves as a fresh pool.**  In every reachable state in which `stop()`
+    has returned and `start()` has not been called again (`stopReturned`), the pool is in the configuration of a freshly
+    constructed pool holding the tasks that were enqueued since the drain of `stop()` (`FreshLike`): every component that
+    `start()`, `enqueue()`, the workers, `join()` or `stop()` read — flag, counters, `_threads`, queue and its unfinished
+    count — has the value it has in a new pool.  The state is moreover reachable, so every theorem of C09–C11 (stated for
+    all reachable states: exact counters, bounds, hand-off, `join`, and these `stop()` theorems) applies to all of its
+    successors, i.e. to the restarted pool; the freshly constructed pool itself is the instance `s = init cfg n`. -/
+theorem C11_restart (cfg : Config) (n : Nat) (s : State) (hs : cfg.singleCtl = true) (hr : Reach (init cfg n) s)
+    (hret : stopReturned s = true) : FreshLike s := by
+  obtain ⟨hflag, hnj⟩ := notJoining_of_stopReturned hret
+  obtain ⟨hdead, hnt, hna, hth, hno, _⟩ := C11_workers_exit cfg n s hs hr hflag hnj
+  have hC := CtlInv_reach hs hr
+  have hQ := QueueInv_reach hs hr
+  have hB := BaseInv_reach hr
+  have hT := TaskInv_reach hr
+  -- the controller is not inside `clear()`, and no other client ever is
+  have hcl : ∀ c ∈ s.clients, cHoldsItem c = false ∧ cHoldsTask c = false := by
+    intro c hc
+    obtain ⟨j, hj⟩ := List.getElem?_of_mem hc
+    cases hpc : c.pc <;> simp [cHoldsItem, cHoldsTask, hpc]
+    have h0 : j = 0 := hC.only j c hj (by simp [hpc, C11L.ctlPc])
+    subst h0
+    simp [stopReturned, hj, hpc, afterSet] at hret
+  have hsent : Item.sentinel ∉ s.queue := by
+    intro hm
+    obtain ⟨c, hc, hp⟩ := hQ.sent hm
+    simp [stopReturned, hc] at hret
+    cases hpc : c.pc <;> simp [hpc, sentPhase] at hp <;> simp [hpc, afterSet] at hret
+  have honly : ∀ it ∈ s.queue, isTask it = true := by
+    intro it hit
+    cases it with
+    | task t => rfl
+    | sentinel => exact absurd hit hsent
+  have hw1 : s.workers.countP wHoldsItem = 0 := List.countP_eq_zero.mpr (fun w hw => by simp [(hno w hw).2])
+  have hw2 : s.workers.countP wHasTask = 0 := List.countP_eq_zero.mpr (fun w hw => by simp [(hno w hw).1])
+  have hc1 : s.clients.countP cHoldsItem = 0 := List.countP_eq_zero.mpr (fun c hc => by simp [(hcl c hc).1])
+  have hc2 : s.clients.countP cHoldsTask = 0 := List.countP_eq_zero.mpr (fun c hc => by simp [(hcl c hc).2])
+  have hall : s.queue.countP isTask = s.queue.length := List.countP_eq_length.mpr honly
+  refine ⟨hflag, hdead, hnt, hna, hth, honly, ?_, ?_, ?_⟩
+  · rw [hB.count.pending, hw2, hc2, hall]; rfl
+  · have := hB.unf
+    unfold UnfInv at this
+    rw [this, hw1, hc1]; rfl
+  · intro t ht
+    obtain ⟨tk, h1, h2⟩ := hT.qphase t ht
+    exact ⟨tk, h1, h2, by rw [hT.exec t tk h1, h2]; rfl⟩
+
+/-- Everything reachable from a state the pool has reached is reachable from the freshly constructed pool: every theorem
+    of C09–C11 — all of them are stated for every `Reach (init cfg n) s` — applies to the pool after `stop()`, during and
+    after its restart, and through any number of further stop/start cycles. -/
+theorem C11_restart_reach (cfg : Config) (n : Nat) (s s' : State) (hr : Reach (init cfg n) s) (hr' : Reach s s') :
+    Reach (init cfg n) s' := by
+  induction hr' with
+  | refl => exact hr
+  | step a _ hs ih => exact Reach.step a ih hs
+
+/-- **A terminated worker stays terminated**: in every later state its record is the same (it takes no step, nothing
+    revives it; workers started by a restart get new indices) — so the workers that `C11_workers_exit` finds terminated
+    after `stop()` play no part in the restarted pool. -/
+theorem C11_dead_forever (s s' : State) (hr : Reach s s') (j : Nat) (w : Worker)
+    (hj : s.workers[j]? = some w) (hd : w.pc = .dead) : s'.workers[j]? = some w := by
+  induction hr with
+  | refl => exact hj
+  | step a _ hs ih => exact dead_step hs ih hd
+
+/-- **No sentinel outlives `stop()`**: in every reachable state the queue contains a sentinel only while the controller is
+    between the `put` loop of `stop()` and the end of the drain loop of the `clear()` that ends it (`sentPhase`). -/
+theorem C11_no_sentinel (cfg : Config) (n : Nat) (s : State) (hs : cfg.singleCtl = true) (hr : Reach (init cfg n) s)
+    (hctl : ∀ c, s.clients[0]? = some c → sentPhase c.pc = false) : Item.sentinel ∉ s.queue := by
+  intro hm
+  obtain ⟨c, hc, hp⟩ := (QueueInv_reach hs hr).sent hm
+  rw [hctl c hc] at hp; cases hp
+
+/-- The statement kept unproved so far as `C11_workers_exit_restart_full_statement`, now a theorem (a corollary of
+    `C11_workers_exit` and `C11_restart`). -/
+theorem C11_workers_exit_restart :
+    ∀ (cfg : Config) (n : Nat) (s : State), cfg.singleCtl = true → Reach (init cfg n) s → s.stop = true →
     (∀ c, s.clients[0]? = some c → (match c.pc with
         | .stopAcq | .stopPut _ | .stopRel _ | .stopAlive _ | .stopJoin _ | .stopAlive2 _
         | .clrAcq | .clrGet | .clrDone _ | .clrJoin | .clrRel => False | _ => True)) →
     (∀ w ∈ s.workers, w.pc = .dead) ∧ s.nbThreads = 0 ∧ s.nbActive = 0 ∧ s.threads = [] ∧
-    s.unfinished = s.queue.length ∧ s.nbPending = s.queue.countP isTask
+    s.unfinished = s.queue.length ∧ s.nbPending = s.queue.countP isTask := by
+  intro cfg n s hs hr hflag hctl
+  have hret : stopReturned s = true := by
+    unfold stopReturned
+    cases hc : s.clients[0]? with
+    | none => simp [hflag]
+    | some c =>
+      have := hctl c hc
+      simp [hflag]
+      cases hpc : c.pc <;> simp [hpc] at this <;> simp [afterSet]
+  have h := C11_restart cfg n s hs hr hret
+  refine ⟨h.noLive, h.nbThreads, h.nbActive, h.threads, h.unfinished, ?_⟩
+  rw [h.nbPending, List.countP_eq_length.mpr h.onlyTasks]
+
+/-- Where `start()` stands after its `queue.qsize`: about to call `__start_thread` `clamp(|queue|, min, max)` times, or
+    returning when that number is 0. -/
+def startTarget (s : State) : Client :=
+  if clamp s.queue.length s.cfg.min s.cfg.max = 0 then { pc := .idle, ret := .unit }
+  else { pc := .stAcq (clamp s.queue.length s.cfg.min s.cfg.max), ret := .none }
+
+/-- **`start()` on a stopped pool takes the path it takes on a new pool**: it is not a no-op — the four first operations
+    (`call`, `event.is_set`, `event.clear`, `queue.qsize`) clear the flag and leave the controller about to call
+    `__start_thread` `clamp(|queue|, min, max)` times (`startTarget`), nothing else changing.  The state components read
+    here (`stop`, `queue`, `cfg`) are those of a fresh pool by `C11_restart`. -/
+theorem C11_restart_start (s : State) (c : Client) (hc : s.clients[0]? = some c) (hpc : c.pc = .idle)
+    (hstopped : s.stop = true) (hctl : isCtl s 0 = true) :
+    run s [⟨.client 0, .callStart, false⟩, ⟨.client 0, .eventIsSet, false⟩, ⟨.client 0, .eventClear, false⟩,
+           ⟨.client 0, .queueQsize, false⟩]
+      = some { s with stop := false, clients := s.clients.set 0 (startTarget s) } := by
+  have hlt : 0 < s.clients.length := (List.getElem?_eq_some_iff.mp hc).1
+  have e1 : step? s ⟨.client 0, .callStart, false⟩ = some (setClient s 0 { pc := .startIsSet, ret := .none }) := by
+    simp only [step?, hc, clientStep, hpc, hctl, if_true]
+  have e2 : step? (setClient s 0 { pc := .startIsSet, ret := .none }) ⟨.client 0, .eventIsSet, false⟩
+      = some (setClient s 0 { pc := .startClear, ret := .none }) := by
+    simp [step?, clientStep, setClient, hlt, hstopped, List.set_set]
+  have e3 : step? (setClient s 0 { pc := .startClear, ret := .none }) ⟨.client 0, .eventClear, false⟩
+      = some (setClient { s with stop := false } 0 { pc := .startQsize, ret := .none }) := by
+    simp [step?, clientStep, setClient, hlt, List.set_set]
+  have e4 : step? (setClient { s with stop := false } 0 { pc := .startQsize, ret := .none }) ⟨.client 0, .queueQsize, false⟩
+      = some { s with stop := false, clients := s.clients.set 0 (startTarget s) } := by
+    simp only [step?, clientStep, setClient, List.getElem?_set_self hlt, startTarget, List.set_set]
+    first | rfl | (split <;> simp_all)
+  simp only [run, e1, e2, e3, e4]
+
+/-- Where `start()` stands after one `__start_thread`. -/
+def startNext (k : Nat) (ret : Ret) : Client :=
+  if k ≤ 1 then { pc := .idle, ret := .unit } else { pc := .stAcq (k - 1), ret := ret }
+
+/-- … and each `__start_thread` of that `start()` (`lock.acquire`, `event.is_set`, `lock.release`), when the lock is free
+    and `nb_threads < max_threads` — as it is after `stop()`, where `nb_threads = 0` — starts, counts and lists a new
+    worker at the head of its loop. -/
+theorem C11_restart_spawn (s : State) (c : Client) (k : Nat) (hc : s.clients[0]? = some c) (hpc : c.pc = .stAcq k)
+    (hrun : s.stop = false) (hfree : s.lockOwner = none) (hroom : s.nbThreads < s.cfg.max) :
+    run s [⟨.client 0, .lockAcquire, false⟩, ⟨.client 0, .eventIsSet, false⟩, ⟨.client 0, .lockRelease, false⟩]
+      = some { s with lockOwner := none, lockDepth := 0, nbThreads := s.nbThreads + 1,
+                      threads := s.threads ++ [s.workers.length], workers := s.workers ++ [{}],
+                      clients := s.clients.set 0 (startNext k c.ret) } := by
+  have hlt : 0 < s.clients.length := (List.getElem?_eq_some_iff.mp hc).1
+  have hnot : ¬ s.nbThreads ≥ s.cfg.max := by omega
+  have e1 : step? s ⟨.client 0, .lockAcquire, false⟩
+      = some (setClient (acq s (.client 0)) 0 { pc := .stIsSet k, ret := c.ret }) := by
+    simp [step?, hc, clientStep, hpc, canAcquire, hfree, hnot]
+  have e2 : step? (setClient (acq s (.client 0)) 0 { pc := .stIsSet k, ret := c.ret }) ⟨.client 0, .eventIsSet, false⟩
+      = some (setClient (spawnWorker (acq s (.client 0))) 0 { pc := .stRel k, ret := c.ret }) := by
+    simp [step?, clientStep, setClient, acq, hlt, hrun, spawnWorker, List.set_set]
+  have e3 : step? (setClient (spawnWorker (acq s (.client 0))) 0 { pc := .stRel k, ret := c.ret }) ⟨.client 0, .lockRelease, false⟩
+      = some { s with lockOwner := none, lockDepth := 0, nbThreads := s.nbThreads + 1,
+                      threads := s.threads ++ [s.workers.length], workers := s.workers ++ [{}],
+                      clients := s.clients.set 0 (startNext k c.ret) } := by
+    simp only [step?, clientStep, setClient, List.getElem?_set_self hlt, spawnWorker, acq, hfree, canRelease, rel,
+      startNext, List.set_set]
+    first | rfl | simp | (split <;> simp_all)
+  simp only [run, e1, e2, e3]
+
+/-! ### `stop()` always returns: no stuck state, and a measure that every step towards the return lowers -/
+
+/-- **`stop()` is never stuck** (single controlling thread, any number of enqueuing / joining client threads, every
+    interleaving and timing).  In every reachable state in which the controller is inside `stop()` — at any of its
+    operations, the final `clear()` included (`inStop`) — either a task body is running (the environment has to end it:
+    `stop()` waits for running tasks), or some action that brings `stop()` nearer to its return (`progressing`) is
+    enabled: a non-environment action of a worker, of the controller — other than going round its `is_alive`/`join(3)`
+    loop on a thread that is still alive — or of another client that owns the pool lock (finishing the critical section
+    of its `enqueue`).  Time-outs count as actions (a timed `put`/`get`/`join(3)` returns when its time is up); the
+    time-outs of *other* clients' `join(t)`/`result(t)` are not counted as progress. -/
+theorem C11_stop_no_stuck (cfg : Config) (n : Nat) (s : State) (hs : cfg.singleCtl = true) (hr : Reach (init cfg n) s)
+    (c : Client) (hc : s.clients[0]? = some c) (hin : C11L.inStop s c.pc = true) :
+    (∃ w ∈ s.workers, w.pc = .body) ∨ ∃ a s', progressing s a = true ∧ step? s a = some s' :=
+  stop_no_stuck (BaseInv_reach hr) (TaskInv_reach hr) (CtlInv_reach hs hr) (QueueInv_reach hs hr) hc hin
+
+/-- **The termination measure of `stop()`.**  `stopMeasure s` = the (weighted) steps every live worker still has to take
+    to its terminal program counter under the set flag + the remaining steps of the `enqueue` calls in progress + the
+    remaining steps of the controller (sentinels still to place, threads still to join, end of `clear()`) + 2 × the queue
+    length (items still to drain).  From the `lock.acquire` of `stop()` on (`afterSet`, flag set), in every reachable
+    state and for every step `s → s'`:
+    * every `progressing` action (the ones `C11_stop_no_stuck` provides) strictly lowers the measure;
+    * so does every worker step, the end of a task body (environment) included;
+    * no step raises it, except a client's *call* of `enqueue` (environment), by exactly the cost of that call (≤ 8).
+    Hence on every run in which running task bodies end and `enqueue` is called finitely often, `stop()` returns
+    (after at most `stopMeasure` progressing steps); the two first operations of `stop()` (`event.is_set`, `event.set`)
+    are always enabled. -/
+theorem C11_stop_measure (cfg : Config) (n : Nat) (s s' : State) (a : Action) (hs : cfg.singleCtl = true)
+    (hr : Reach (init cfg n) s) (hflag : s.stop = true) (c : Client) (hc : s.clients[0]? = some c)
+    (hin : afterSet c.pc = true) (hst : step? s a = some s') :
+    (progressing s a = true → stopMeasure s' < stopMeasure s) ∧
+    ((∃ i, a.who = .worker i) → stopMeasure s' < stopMeasure s) ∧
+    stopMeasure s' ≤ stopMeasure s + (if a.op = .callEnqueue then 8 else 0) :=
+  stop_measure (CtlInv_reach hs hr) hflag hc hin hst
+
+/-- From `event.set` on the flag stays set while the controller is inside `stop()`, so `C11_stop_measure` applies to every
+    state of `stop()` after its second operation. -/
+theorem C11_stop_flag (cfg : Config) (n : Nat) (s : State) (hs : cfg.singleCtl = true) (hr : Reach (init cfg n) s)
+    (c : Client) (hc : s.clients[0]? = some c) (hin : joinPhase c.pc = true) : s.stop = true :=
+  (CtlInv_reach hs hr).stop.flag c hc hin
+
+/-! ### non-vacuity: a complete life cycle on concrete action lists -/
+
+private def ca (i : Nat) (op : Op) (t : Bool := false) : Action := ⟨.client i, op, t⟩
+private def wa (i : Nat) (op : Op) (t : Bool := false) : Action := ⟨.worker i, op, t⟩
+private def cfg1 : Config := { max := 1, min := 1, qbound := 0 }
+
+/-- `start()` by client 0 (one worker). -/
+private def startRun : List Action :=
+  [ca 0 .callStart, ca 0 .eventIsSet, ca 0 .eventClear, ca 0 .queueQsize, ca 0 .lockAcquire, ca 0 .eventIsSet, ca 0 .lockRelease]
+/-- `enqueue()` by client 1 on a running pool with an idle worker. -/
+private def enqRun : List Action := [ca 1 .callEnqueue, ca 1 .lockAcquire, ca 1 .queuePut, ca 1 .lockRelease]
+/-- worker 0 takes the task and enters its body. -/
+private def takeRun : List Action := [wa 0 .eventIsSet, wa 0 .queueGet, wa 0 .lockAcquire, wa 0 .lockRelease, wa 0 .taskBegin]
+/-- `stop()` up to the first `thread.join` (the thread is alive: it runs a task). -/
+private def stopRun1 : List Action :=
+  [ca 0 .callStop, ca 0 .eventIsSet, ca 0 .eventSet, ca 0 .lockAcquire, ca 0 .queuePut, ca 0 .lockRelease, ca 0 .threadIsAlive]
+/-- the body ends; the worker accounts, sees the flag and exits. -/
+private def exitRun : List Action :=
+  [wa 0 (.taskEnd .ok), wa 0 .futSet, wa 0 .queueTaskDone, wa 0 .lockAcquire, wa 0 .lockRelease, wa 0 .lockAcquire,
+   wa 0 .lockRelease, wa 0 .eventIsSet, wa 0 .lockAcquire, wa 0 .lockRelease]
+/-- the rest of `stop()`: the join returns, `clear()` drains the unconsumed sentinel. -/
+private def stopRun2 : List Action :=
+  [ca 0 .threadJoin, ca 0 .threadIsAlive, ca 0 .threadIsAlive, ca 0 .lockAcquire, ca 0 .queueGetNowait, ca 0 .queueTaskDone,
+   ca 0 .queueGetNowait, ca 0 .queueJoin, ca 0 .lockRelease]
+/-- `enqueue()` by client 1 on the stopped pool (`__start_thread` is called and refuses: the flag is set). -/
+private def enqStoppedRun : List Action :=
+  [ca 1 .callEnqueue, ca 1 .lockAcquire, ca 1 .queuePut, ca 1 .lockAcquire, ca 1 .eventIsSet, ca 1 .lockRelease, ca 1 .lockRelease]
+
+/-- `C11_stop_no_stuck`, first alternative: the controller waits in `thread.join` for a worker that runs a task; only the
+    environment (the task) can move the worker — and the measure is 22. -/
+example : ∃ s c, run (init cfg1 2) (startRun ++ enqRun ++ takeRun ++ stopRun1) = some s ∧ s.clients[0]? = some c ∧
+    C11L.inStop s c.pc = true ∧ afterSet c.pc = true ∧ s.stop = true ∧ c.pc = .stopJoin [0] ∧ ctlSpin s c.pc = true ∧
+    s.workers.map (·.pc) = [.body] ∧ stopMeasure s = 22 :=
+  ⟨_, _, rfl, rfl, rfl, rfl, rfl, rfl, rfl, rfl, rfl⟩
+
+/-- `C11_stop_no_stuck`, second alternative, and `C11_stop_measure`: once the body has ended every step of the worker is a
+    progressing action; when the worker has terminated the measure is 12 and the controller's `join` is progressing. -/
+example : ∃ s c, run (init cfg1 2) (startRun ++ enqRun ++ takeRun ++ stopRun1 ++ exitRun) = some s ∧
+    s.clients[0]? = some c ∧ C11L.inStop s c.pc = true ∧ ctlSpin s c.pc = false ∧ progressing s (ca 0 .threadJoin) = true ∧
+    s.workers.map (·.pc) = [.dead] ∧ s.queue = [.sentinel] ∧ stopMeasure s = 12 :=
+  ⟨_, _, rfl, rfl, rfl, rfl, rfl, rfl, rfl, rfl⟩
+
+/-- `C11_workers_exit` / `C11_restart`: after the complete `stop()` the hypothesis `stopReturned` holds, with one terminated
+    worker, an empty queue (the sentinel was drained) and measure 0. -/
+example : ∃ s, run (init cfg1 2) (startRun ++ enqRun ++ takeRun ++ stopRun1 ++ exitRun ++ stopRun2) = some s ∧
+    stopReturned s = true ∧ notJoining s = true ∧ s.workers.map (·.pc) = [.dead] ∧ s.queue = [] ∧
+    s.clients.map (·.ret) = [.unit, .fut] ∧ stopMeasure s = 0 :=
+  ⟨_, rfl, rfl, rfl, rfl, rfl, rfl, rfl⟩
+
+/-- `C11_restart`: a task enqueued on the stopped pool stays queued and pending (`FreshLike` with a non-empty queue); the
+    restarted pool then has exactly the counters, `_threads` length and queue of a fresh pool given the same `enqueue`
+    and `start()` — one live worker at the head of its loop, `nb_threads = 1`, `nb_pending = unfinished = 1`. -/
+example : ∃ s, run (init cfg1 2) (startRun ++ enqRun ++ takeRun ++ stopRun1 ++ exitRun ++ stopRun2 ++ enqStoppedRun) = some s ∧
+    stopReturned s = true ∧ s.queue = [.task 1] ∧ s.nbPending = 1 ∧ s.unfinished = 1 ∧ s.nbThreads = 0 :=
+  ⟨_, rfl, rfl, rfl, rfl, rfl, rfl⟩
+
+example : ∃ s t, run (init cfg1 2) (startRun ++ enqRun ++ takeRun ++ stopRun1 ++ exitRun ++ stopRun2 ++ enqStoppedRun ++ startRun) = some s ∧
+    run (init cfg1 2) (enqStoppedRun ++ startRun) = some t ∧
+    s.stop = t.stop ∧ s.queue.length = t.queue.length ∧ s.unfinished = t.unfinished ∧ s.nbThreads = t.nbThreads ∧
+    s.nbActive = t.nbActive ∧ s.nbPending = t.nbPending ∧ s.threads.length = t.threads.length ∧
+    (s.workers.filter (·.pc != .dead)).map (·.pc) = (t.workers.filter (·.pc != .dead)).map (·.pc) ∧
+    s.stop = false ∧ s.nbThreads = 1 ∧ s.workers.map (·.pc) = [.dead, .loopHead] :=
+  by refine ⟨_, _, rfl, rfl, ?_⟩; decide
+
+/-- `C11_restart_start` / `C11_restart_spawn`: their hypotheses hold after the complete `stop()` (controller idle, flag set),
+    resp. after the four first operations of the restart (`stAcq 1`, flag clear, lock free, `nb_threads = 0 < max = 1`). -/
+example : ∃ s c, run (init cfg1 2) (startRun ++ enqRun ++ takeRun ++ stopRun1 ++ exitRun ++ stopRun2) = some s ∧
+    s.clients[0]? = some c ∧ c.pc = .idle ∧ s.stop = true ∧ isCtl s 0 = true :=
+  ⟨_, _, rfl, rfl, rfl, rfl, rfl⟩
+
+example : ∃ s c, run (init cfg1 2) (startRun ++ enqRun ++ takeRun ++ stopRun1 ++ exitRun ++ stopRun2 ++ startRun.take 4) = some s ∧
+    s.clients[0]? = some c ∧ c.pc = .stAcq 1 ∧ s.stop = false ∧ s.lockOwner = none ∧ s.nbThreads = 0 ∧ s.cfg.max = 1 :=
+  ⟨_, _, rfl, rfl, rfl, rfl, rfl, rfl, rfl⟩
+
+/-- Why `inStop` counts the operations of `clear()` only while the flag is set: `clear()` called *directly on a running
+    pool* can block for ever — it holds the pool lock while it waits in `Queue.join` for a worker that has taken a task
+    from the queue and needs that very lock for `nb_active += 1` before it can run the task and call `task_done`.  (Not
+    a life-cycle history of C11; inside `stop()` every worker has terminated before `clear()` is called,
+    `C11_workers_exit`.)  Here neither thread can move, and only environment calls are left to the other client. -/
+example : ∃ s c, run (init cfg1 2) (startRun ++ enqRun ++ [wa 0 .eventIsSet, wa 0 .queueGet] ++
+      [ca 0 .callClear, ca 0 .lockAcquire, ca 0 .queueGetNowait]) = some s ∧
+    s.clients[0]? = some c ∧ c.pc = .clrJoin ∧ s.stop = false ∧ C11L.inStop s c.pc = false ∧
+    s.lockOwner = some (.client 0) ∧ s.unfinished = 1 ∧ s.workers.map (·.pc) = [.actAcq] ∧
+    step? s (ca 0 .queueJoin) = none ∧ step? s (wa 0 .lockAcquire) = none :=
+  ⟨_, _, rfl, rfl, rfl, rfl, rfl, rfl, rfl, rfl, rfl, rfl⟩
 
 theorem C11_gen_poolJoinShape : Generated.poolJoinShape = some joinShapeSpec := by decide
 theorem C11_gen_poolUnlockedAccesses : Generated.poolUnlockedAccesses = some unlockedAccessesSpec := by decide
